@@ -7,6 +7,7 @@ import (
 	"fmt"
 	"strings"
 	"testing"
+	"unicode/utf8"
 
 	"pgregory.net/rapid"
 
@@ -38,6 +39,10 @@ type c28Case struct {
 	Edit    string // edit: delete | insert | duplicate exactly one hex digit of the valid encoding of Payload (33 bytes)
 	Class   string // edit: first (leading payload nibble) | typeid (second nibble) | middle | checksum | last
 	Digit   int    // edit/insert: the digit inserted (0..15)
+	Junk    string // junk: prepend (junk text before the valid string) | addrfront (a second complete address string in front) | midprefix (0x inserted at Pos) | doubleprefix (JunkS + 0x + body)
+	JunkS   string // junk/prepend: the text put in front; junk/doubleprefix: the extra prefix
+	Front   []byte // junk/addrfront: the 33-byte address encoded in front
+	FrontPx bool   // junk/addrfront: the front address carries its own 0x
 }
 
 func c28Checksum(b []byte) []byte {
@@ -106,6 +111,14 @@ func c28CheckString(s string) (accepted bool, err error) {
 	terr := viaText.UnmarshalText([]byte(s))
 	if (perr == nil) != (terr == nil) {
 		return false, fmt.Errorf("StringToAddress(%q) err=%v but UnmarshalText err=%v", s, perr, terr)
+	}
+	if utf8.ValidString(s) {
+		var viaJSON codec.Address
+		js, _ := json.Marshal(s)
+		jerr := json.Unmarshal(js, &viaJSON)
+		if (jerr == nil) != (perr == nil) || (jerr == nil && viaJSON != got) {
+			return perr == nil, fmt.Errorf("StringToAddress(%q) = %x, %v but json.Unmarshal of the quoted string = %x, %v", s, got[:], perr, viaJSON[:], jerr)
+		}
 	}
 	if perr != nil {
 		if got != codec.EmptyAddress {
@@ -296,6 +309,55 @@ func c28Run(c c28Case, st *vstat.Stats) error {
 		// an edited string may by chance still be a valid encoding only if it has 74 digits again (never for one
 		// deleted/inserted/duplicated digit): the independent decoder rejects every odd-length string
 		mustReject = true
+	case "junk":
+		if len(c.Payload) != c28AddrLen {
+			return nil
+		}
+		body := c28Encode(c.Payload, false, c.Upper)
+		valid := body
+		if c.Prefix {
+			valid = "0x" + body
+		}
+		pos := c.Pos
+		if pos < 0 {
+			pos = -pos
+		}
+		switch c.Junk {
+		case "addrfront":
+			if len(c.Front) != c28AddrLen {
+				return nil
+			}
+			s = c28Encode(c.Front, c.FrontPx, c.Upper) + valid
+			labels = append(labels, "junk-second-address-in-front")
+		case "midprefix":
+			i := pos % (len(body) + 1)
+			s = valid[:len(valid)-len(body)] + body[:i] + "0x" + body[i:]
+			labels = append(labels, "junk-0x-inside")
+		case "doubleprefix":
+			s = c.JunkS + "0x" + body
+			labels = append(labels, "junk-double-prefix")
+		default:
+			s = c.JunkS + valid
+			labels = append(labels, "junk-prepend")
+			if strings.Contains(c.JunkS, "0x") {
+				labels = append(labels, "junk-contains-0x")
+			}
+		}
+		if c.Prefix {
+			labels = append(labels, "junk-on-prefixed")
+		} else {
+			labels = append(labels, "junk-on-unprefixed")
+		}
+		_, refOK := c28IndependentDecode(s)
+		if refOK {
+			labels = append(labels, "junk-result-is-valid-encoding") // e.g. empty junk, or "0x" in front of an unprefixed string
+		} else if i := strings.Index(s, "0x"); i >= 0 && len(s)-i-2 == 2*(c28AddrLen+c28SumLen) {
+			if _, ok := c28IndependentDecode(s[i+2:]); ok {
+				// malformed as a whole, but a full valid encoding follows the first "0x": what a parser that searches for the prefix would accept
+				labels = append(labels, "junk-then-0x-then-valid-encoding")
+			}
+		}
+		nt = !refOK
 	default:
 		return nil
 	}
@@ -321,7 +383,7 @@ func c28Run(c c28Case, st *vstat.Stats) error {
 
 func c28Gen(rt *rapid.T) c28Case {
 	var c c28Case
-	c.Mode = rapid.SampledFrom([]string{"addr", "addr", "payload", "payload", "payload", "payload", "raw", "edit", "edit", "edit"}).Draw(rt, "mode")
+	c.Mode = rapid.SampledFrom([]string{"payload", "junk", "edit", "payload", "addr", "junk", "edit", "payload", "raw", "addr", "payload", "junk", "edit"}).Draw(rt, "mode")
 	byteGen := rapid.OneOf(rapid.Byte(), rapid.SampledFrom([]byte{0, 0xff}))
 	switch c.Mode {
 	case "addr":
@@ -344,7 +406,7 @@ func c28Gen(rt *rapid.T) c28Case {
 		c.Payload = rapid.SliceOfN(byteGen, n, n).Draw(rt, "payload")
 		c.Prefix = rapid.Bool().Draw(rt, "prefix")
 		c.Upper = rapid.IntRange(0, 3).Draw(rt, "upper") == 0
-		c.Damage = rapid.SampledFrom([]int{0, 0, 0, 0, 1, 2, 3, 4, 5}).Draw(rt, "damage")
+		c.Damage = rapid.SampledFrom([]int{1, 2, 3, 4, 0, 0, 5, 0, 0}).Draw(rt, "damage")
 		c.Pos = rapid.IntRange(0, 1<<16).Draw(rt, "pos")
 	case "edit":
 		c.Payload = rapid.SliceOfN(byteGen, c28AddrLen, c28AddrLen).Draw(rt, "addr")
@@ -358,6 +420,26 @@ func c28Gen(rt *rapid.T) c28Case {
 		c.Class = rapid.SampledFrom([]string{"first", "first", "first", "typeid", "middle", "middle", "checksum", "checksum", "last", "last"}).Draw(rt, "class")
 		c.Pos = rapid.IntRange(0, 1<<16).Draw(rt, "pos")
 		c.Digit = rapid.OneOf(rapid.Just(0), rapid.IntRange(0, 15)).Draw(rt, "digit")
+	case "junk":
+		c.Payload = rapid.SliceOfN(byteGen, c28AddrLen, c28AddrLen).Draw(rt, "addr")
+		c.Prefix = rapid.IntRange(0, 2).Draw(rt, "prefix") != 0
+		c.Upper = rapid.IntRange(0, 3).Draw(rt, "upper") == 0
+		c.Junk = rapid.SampledFrom([]string{"addrfront", "midprefix", "doubleprefix", "prepend", "prepend", "prepend", "prepend", "addrfront", "midprefix", "doubleprefix"}).Draw(rt, "junk")
+		c.Pos = rapid.IntRange(0, 1<<16).Draw(rt, "pos")
+		switch c.Junk {
+		case "prepend":
+			c.JunkS = rapid.OneOf(
+				rapid.SampledFrom([]string{"0x", "00x", " 0x", "zz0x", "deadbeef0x", "0X0x", "x0x", "0x0x", "0x 0x", "f0xf"}),
+				rapid.StringOfN(rapid.RuneFrom([]rune("0xX zf0a1")), 0, 6, -1),
+				rapid.SampledFrom([]string{"0", "00", " ", "z", "zz", "x", "X", "f", "ff", "0X", "deadbeef", "\t", "\n"}),
+				rapid.StringOfN(rapid.RuneFrom([]rune("0123456789abcdefABCDEF")), 1, 10, -1),
+			).Draw(rt, "junkS")
+		case "addrfront":
+			c.Front = rapid.SliceOfN(byteGen, c28AddrLen, c28AddrLen).Draw(rt, "front")
+			c.FrontPx = rapid.Bool().Draw(rt, "frontPx")
+		case "doubleprefix":
+			c.JunkS = rapid.SampledFrom([]string{"0x", "0X", "0x0x", "0X0X", "0x ", "0x0", "x", "00"}).Draw(rt, "extraPrefix")
+		}
 	default:
 		c.Raw = rapid.OneOf(
 			rapid.StringOfN(rapid.RuneFrom([]rune("0123456789abcdefABCDEFxX g")), 0, 90, -1),
@@ -368,7 +450,7 @@ func c28Gen(rt *rapid.T) c28Case {
 }
 
 func TestC28(t *testing.T) {
-	st := vstat.New(t, "C28", "addresses (33 random/boundary bytes: String/MarshalText/JSON round trips, format compared with an independent encoder, then re-parsed with/without 0x and in either case) and strings (payloads of 0..73 bytes with a recomputed valid checksum, optionally damaged: checksum bit flip, odd length, non-hex character, checksum dropped, 0X prefix; plus raw hex-ish and arbitrary strings; plus valid encodings with exactly one hex digit deleted / inserted / duplicated at the leading nibble, inside the type id, in the middle, inside the checksum or at the end, type id below and above 0x10, which must all be rejected); whenever parsing succeeds an independent decoder must find exactly address||sha256(address)[28:]; non-trivial = a wrong-length payload carrying a valid checksum, or a one-digit edit of a valid encoding; distinct by the string")
+	st := vstat.New(t, "C28", "addresses (33 random/boundary bytes: String/MarshalText/JSON round trips, format compared with an independent encoder, then re-parsed with/without 0x and in either case) and strings (payloads of 0..73 bytes with a recomputed valid checksum, optionally damaged: checksum bit flip, odd length, non-hex character, checksum dropped, 0X prefix; plus raw hex-ish and arbitrary strings; plus valid encodings with exactly one hex digit deleted / inserted / duplicated at the leading nibble, inside the type id, in the middle, inside the checksum or at the end, type id below and above 0x10, which must all be rejected; plus valid encodings (prefixed or not) with junk in front - 0..6 characters of {0,x,X,space,z,f,a,1}, fragments containing 0x such as \"00x\", \" 0x\", \"zz0x\", \"deadbeef0x\", \"0X0x\", hex digits, or a second complete address string - or with 0x inserted at a drawn position, or with a doubled prefix); whenever parsing succeeds an independent decoder must find exactly address||sha256(address)[28:]; non-trivial = a wrong-length payload carrying a valid checksum, or a one-digit edit of a valid encoding, or a junk-before-prefix string that is not itself a valid encoding; distinct by the string")
 	rapid.Check(t, func(rt *rapid.T) {
 		c := c28Gen(rt)
 		vstat.Run(rt, st, c, func() error { return c28Run(c, st) })
@@ -404,6 +486,14 @@ func FuzzC28(f *testing.F) {
 		if len(payload) == c28AddrLen && flags&3 == 1 && !acc {
 			t.Fatalf("C28 violated: canonical encoding %q rejected", enc)
 		}
+		// a piece of the fuzzer's string in front of the encoding (junk before the prefix)
+		front := s
+		if len(front) > 80 {
+			front = front[:80]
+		}
+		if _, err := c28CheckString(front + enc); err != nil {
+			t.Fatalf("C28 violated: %v", err)
+		}
 		// one hex digit deleted / inserted / duplicated anywhere in the encoding (flags bits 2..3: 0 = no edit)
 		if edit := (flags >> 2) & 3; edit != 0 && len(payload) > 0 {
 			body := c28Encode(payload, false, flags&2 != 0)
@@ -427,7 +517,7 @@ func FuzzC28(f *testing.F) {
 }
 
 func TestC28Regression(t *testing.T) {
-	st := vstat.New(t, "C28", "regression: wrong-length payloads (0, 3, 32, 34, 40 bytes) with a valid checksum, each with/without 0x and in either case (fix F6); valid encodings of 5 addresses (type id 0x00, 0x05, 0x0f, 0x10, 0xf3) with one hex digit deleted / inserted / duplicated at 5 position classes, with/without 0x")
+	st := vstat.New(t, "C28", "regression: wrong-length payloads (0, 3, 32, 34, 40 bytes) with a valid checksum, each with/without 0x and in either case (fix F6); valid encodings of 5 addresses (type id 0x00, 0x05, 0x0f, 0x10, 0xf3) with one hex digit deleted / inserted / duplicated at 5 position classes, with/without 0x; 13 junk-before-prefix strings")
 	for _, n := range []int{0, 3, 32, 34, 40} {
 		p := make([]byte, n)
 		for i := range p {
@@ -438,6 +528,25 @@ func TestC28Regression(t *testing.T) {
 				c := c28Case{Mode: "payload", Payload: p, Prefix: prefix, Upper: upper}
 				vstat.Run(t, st, c, func() error { return c28Run(c, st) })
 			}
+		}
+	}
+	// junk before the prefix (a parser that searches for the first "0x" accepts these)
+	{
+		a := make([]byte, c28AddrLen)
+		for i := range a {
+			a[i] = byte(7 + 3*i)
+		}
+		for _, j := range []string{"0", " ", "zz", "deadbeef", "0X", "X"} {
+			c := c28Case{Mode: "junk", Payload: a, Prefix: true, Junk: "prepend", JunkS: j}
+			vstat.Run(t, st, c, func() error { return c28Run(c, st) })
+		}
+		for _, j := range []string{"00x", " 0x", "zz0x", "deadbeef0x", "0X0x"} {
+			c := c28Case{Mode: "junk", Payload: a, Prefix: false, Junk: "prepend", JunkS: j}
+			vstat.Run(t, st, c, func() error { return c28Run(c, st) })
+		}
+		for _, px := range []bool{true, false} {
+			c := c28Case{Mode: "junk", Payload: a, Prefix: true, Junk: "addrfront", Front: a, FrontPx: px}
+			vstat.Run(t, st, c, func() error { return c28Run(c, st) })
 		}
 	}
 	// one hex digit deleted / inserted / duplicated in a valid encoding (a parser that pads odd-length input
